@@ -36,6 +36,8 @@ pub struct Plan {
     pub sigint_at: Vec<u32>,
     /// step budget (ticks); 0 = unlimited
     pub tick_budget: u64,
+    /// F10: the raw stdin read with this number (0-based) fails with EIO; negative = never
+    pub read_error_at: i64,
 }
 
 impl Default for Plan {
@@ -49,6 +51,7 @@ impl Default for Plan {
             write_eintr_pct: 0,
             sigint_at: Vec::new(),
             tick_budget: 0,
+            read_error_at: -1,
         }
     }
 }
@@ -60,6 +63,7 @@ impl Plan {
             && self.short_write_pct == 0
             && self.write_eintr_pct == 0
             && self.sigint_at.is_empty()
+            && self.read_error_at < 0
     }
 }
 
@@ -68,6 +72,7 @@ pub enum Ev {
     /// raw pipe read returned n bytes (0 = end of input)
     Read { n: u32 },
     ReadIntr,
+    ReadError,
     /// a whole read_line completed; `out_pos`/`err_pos` = stream lengths at that moment
     Line { idx: u32, len: u32, ok: bool, out_pos: u32, err_pos: u32 },
     Write { stream: u8, len: u32, accepted: u32 },
@@ -88,6 +93,7 @@ pub struct Fired {
     pub f5_short_write: u64,
     pub f6_write_eintr: u64,
     pub f8_sigint: u64,
+    pub f10_read_error: u64,
 }
 
 pub struct World {
@@ -157,6 +163,11 @@ impl World {
     fn raw_read(&mut self, buf: &mut [u8]) -> io::Result<usize> {
         let call = self.raw_reads;
         self.raw_reads += 1;
+        if self.plan.read_error_at >= 0 && call == self.plan.read_error_at as u64 {
+            self.fired.f10_read_error += 1;
+            self.log(Ev::ReadError);
+            return Err(io::Error::new(io::ErrorKind::Other, "simulated EIO on standard input"));
+        }
         if self.plan.read_eintr_pct > 0 && !self.pending_eintr_read {
             if mix(self.plan.key ^ call.wrapping_mul(0xA24B_AED4_963E_E407)) % 100
                 < self.plan.read_eintr_pct as u64
